@@ -64,7 +64,7 @@ func lispText(v V) string {
 	case "dotted":
 		return "(list* " + lispTexts(v.E) + ")"
 	case "vec":
-		return strings.TrimSpace("(vector " + lispTexts(v.E)) + ")"
+		return strings.TrimSpace("(vector "+lispTexts(v.E)) + ")"
 	case "hash":
 		var b strings.Builder
 		b.WriteString("(let ((zh (make-hash-table)))")
@@ -287,7 +287,6 @@ var lambdaLists = []struct{ params, body, call string }{
 	{"(a &aux (z 3))", "(list a z)", "(%s 1)"},
 	{"(a &optional (b (list 1 (quote q))) &rest r)", "(list a b r)", "(%s 1) (%s 1 2 3)"},
 }
-
 
 // firstVersion: with probability 1/3 the name is defined a first time with another lambda list, another documentation
 // string and another body; the definition that follows replaces it. What is saved must be the last definition only
